@@ -27,35 +27,42 @@ if ! (cd "$here/mc" && cp -f /repo/go.sum go.sum 2>/dev/null; $GO build "${args[
 fi
 mv -f "$tmpbin" "$bin"
 rc_race=0
-if [ "$prop" = "C09" ] && [ -z "${VERIF_SKIP_RACE:-}" ]; then
-  # C09's literal "free of data races" clause: the same harness bodies, free-running, under Go's race detector
+# free-running parts that are ALSO run under Go's race detector: C09 part D (runtimes sharing a Program) and C07's
+# concurrent gensym part (several goroutines on one Runtime).  RACE_SWITCH selects that part of the driver.
+RACE_SWITCH=""
+case "$prop" in
+  C09) RACE_SWITCH="C09_ONLY=D"; RACE_CLASS="D-free-running:data-race" ;;
+  C07) RACE_SWITCH="C07_ONLY=race"; RACE_CLASS="gensym:concurrent:data-race" ;;
+esac
+if [ -n "$RACE_SWITCH" ] && [ -z "${VERIF_SKIP_RACE:-}" ]; then
+  # the literal "free of data races" clause: the same harness bodies, free-running, under Go's race detector
   # (the cooperative scheduler's hand-offs are happens-before edges, so -race sees nothing under it).
   racebin="$bin-race"
   if (cd "$here/mc" && $GO build -race "${args[@]}" -o "$racebin.$$" "${VERIF_MAIN:-./cmd/mc}") ; then
     mv -f "$racebin.$$" "$racebin"
-    racelog=$(mktemp "${TMPDIR:-/tmp}/c09race.XXXXXX")
-    C09_ONLY=D VERIF_NO_EVIDENCE=1 GORACE="halt_on_error=0 exitcode=66" "$racebin" -prop C09 -tier "$tier" >"$racelog" 2>&1
+    racelog=$(mktemp "${TMPDIR:-/tmp}/race.XXXXXX")
+    env "$RACE_SWITCH" VERIF_NO_EVIDENCE=1 GORACE="halt_on_error=0 exitcode=66" "$racebin" -prop "$prop" -tier "$tier" >"$racelog" 2>&1
     rr=$?
     if grep -q "WARNING: DATA RACE" "$racelog" || [ $rr -eq 66 ]; then
-      mkdir -p "${VERIF_DIR:-$here}/replay/C09"
-      rp="${VERIF_DIR:-$here}/replay/C09/race-$(date +%s).log"
+      mkdir -p "${VERIF_DIR:-$here}/replay/$prop"
+      rp="${VERIF_DIR:-$here}/replay/$prop/race-$(date +%s).log"
       cp "$racelog" "$rp"
-      echo "VIOLATION property=C09 replay=$rp"
-      echo "  class=D-free-running:data-race"
+      echo "VIOLATION property=$prop replay=$rp"
+      echo "  class=$RACE_CLASS"
       grep -m1 -A12 "WARNING: DATA RACE" "$racelog" | sed 's/^/  /'
       rc_race=1
-      export C09_RACE_RESULT="data race reported by the race detector"
+      export RACE_RESULT="data race reported by the race detector"
     elif [ $rr -ne 0 ]; then
       echo "race pass exited $rr" >&2; tail -5 "$racelog" >&2
-      export C09_RACE_RESULT="race pass did not complete (exit $rr)"
+      export RACE_RESULT="race pass did not complete (exit $rr)"
     else
-      export C09_RACE_RESULT="clean: $(grep -o 'evaluations=[0-9]*' "$racelog" | tail -1) free-running loads under -race, no report"
+      export RACE_RESULT="clean: $(grep -o 'evaluations=[0-9]*' "$racelog" | tail -1) free-running loads under -race, no report"
     fi
     rm -f "$racelog"
     [ -n "${VERIF_OVERLAY:-}" ] && rm -f "$racebin"
   else
     echo "race build failed" >&2
-    export C09_RACE_RESULT="race build failed"
+    export RACE_RESULT="race build failed"
   fi
 fi
 "$bin" -prop "$prop" -tier "$tier"
